@@ -3,10 +3,12 @@
 (*  "parse"     [form, groups, text, raised, got]   text must be the spec's rendering of groups   *)
 (*  "malformed" [text, raised]                      no digit.digit anywhere => ValueError         *)
 (*  "roundtrip" [groups, text, raised, got]         parse(to_reduced_str(g)) = g on the domain    *)
-(*  "eq"        [g1, g2, eq, hash_eq, eq_str, str_ok, cde]                                        *)
+(*  "eq"        [g1, g2, eq, hash_eq, eq_str, str_ok, cde, eqs]                                   *)
 EXTENDS Obis, Json, IOUtils
-Bad(t, c) == [id |-> t.id, ok |-> FALSE, clause |-> c]
-Good(t) == [id |-> t.id, ok |-> TRUE, clause |-> ""]
+Bad(t, c) == [id |-> t.id, ok |-> FALSE, clause |-> c, drift |-> ""]
+Good(t) == [id |-> t.id, ok |-> TRUE, clause |-> "", drift |-> ""]
+\* growth (DESIGN §12): filter_group_cde keeps groups C, D, E and drops the rest; a mismatch is DRIFT, not a violation of C20
+FilterCDE(g) == <<None, None, g[3], g[4], g[5], None>>
 Verdict(t) ==
   IF t.kind = "parse" THEN
      IF ~WellFormedGroups(t.groups) \/ (t.form = "six" /\ ~AllPresent(t.groups)) THEN Bad(t, "plan")
@@ -23,9 +25,11 @@ Verdict(t) ==
      ELSE IF t.got # t.groups THEN Bad(t, "C20.roundtrip") ELSE Good(t)
   ELSE IF t.kind = "eq" THEN
      IF t.eq # (t.g1 = t.g2) THEN Bad(t, "C20.eq")
+     ELSE IF \E i \in 1..Len(t.eqs) : t.eqs[i] # (t.g1 = t.g2) THEN Bad(t, "C20.eq")     \* the same question after hashing / printing / the other way round
      ELSE IF t.eq /\ ~t.hash_eq THEN Bad(t, "C20.hash")
      ELSE IF t.str_ok /\ t.eq_str # (t.g1 = t.g2) THEN Bad(t, "C20.eq_string")
-     ELSE IF t.cde # CDE(t.g1) THEN Bad(t, "C20.cde") ELSE Good(t)
+     ELSE IF t.cde # CDE(t.g1) THEN Bad(t, "C20.cde")
+     ELSE IF t.fcde # FilterCDE(t.g1) THEN [Good(t) EXCEPT !.drift = "obis.filter_group_cde"] ELSE Good(t)
   ELSE Bad(t, "plan")
 Traces == ndJsonDeserialize(IOEnv.TRACE_FILE)
 ASSUME JsonSerialize(IOEnv.OUT_FILE, [i \in 1..Len(Traces) |-> Verdict(Traces[i])])
